@@ -120,6 +120,8 @@ class LDAWrapper(LinearSolver):
         self.nondiagonal_idx = slice(None)
         self._did_solve = False  # For debugging purposes
         self._last_rtol = 0.
+        self._hermitian_given = hermitian
+        self._symmetric_given = symmetric
         self.hermitian = hermitian
         self.symmetric = symmetric
         self.complex = None
@@ -127,13 +129,9 @@ class LDAWrapper(LinearSolver):
 
     def update(self, A):
         """ Clear the internal stored solution vectors and update the internal ``solver`` """
-        if self.symmetric is None:
-            self.symmetric = matrix_is_symmetric(A)
-
-        if self.hermitian is None:
-            if not matrix_is_complex(A):
-                self.hermitian = self.symmetric
-            self.hermitian = matrix_is_hermitian(A)
+        # Automatically detected properties are only valid for the current matrix
+        self.symmetric = matrix_is_symmetric(A) if self._symmetric_given is None else self._symmetric_given
+        self.hermitian = matrix_is_hermitian(A) if self._hermitian_given is None else self._hermitian_given
 
         self.A = A
         diags = get_diagonal_indices(A)
